@@ -60,15 +60,18 @@ Lemma areach_skel : forall a a' t,
   (forall y, a_dead a' y = a_dead a y) -> (forall y, a_par a' y = a_par a y) ->
   (forall y, a_chain a' y = a_chain a y) -> areach a' t = areach a t.
 Proof.
-  intros a a' t Hd Hp Hc. unfold areach. rewrite Hd, Hp, Hc, (awalk_skel a a' _ Hd Hp). reflexivity.
+  intros a a' t Hd Hp Hc. unfold areach. rewrite Hd, Hp, Hc. destruct (a_dead a t); [reflexivity|].
+  destruct (a_chain a t) as [|o r]; [reflexivity|]. rewrite (awalk_skel a a' _ Hd Hp). reflexivity.
 Qed.
 
 (* ---- the shape of the chain of a holder --------------------------------------------- *)
 Lemma chain_cases : forall a t, WfA a ->
   a_chain a t = [] \/ exists o, is_span t = true /\ a_chain a t = o :: a_chain a o /\ ~ In t (o :: a_chain a o).
 Proof.
-  intros a t W. unfold a_chain at 1 3. destruct (hget (holders a) t) as [h|] eqn:G; [|left; reflexivity].
-  destruct (is_handle t) eqn:Hh.
+  intros a t W. destruct (hget (holders a) t) as [h|] eqn:G.
+  2:{ left. unfold a_chain. rewrite G. reflexivity. }
+  assert (E0 : a_chain a t = h_chain h) by (unfold a_chain; rewrite G; reflexivity).
+  rewrite E0. destruct (is_handle t) eqn:Hh.
   - destruct (leaf t) eqn:Hl.
     + left. apply (W_leaf a W t h G Hl).
     + assert (Hs : is_span t = true) by (destruct t; try discriminate; reflexivity).
